@@ -206,7 +206,7 @@ def _maxrow():
 
 
 def _build_cel(c, r):
-    r = str(r and int(r) or '')
+    c, r = c.upper(), str(r and int(r) or '')
     return c != _maxcol() and c or '', r != _maxrow() and r or ''
 
 
